@@ -282,3 +282,28 @@ Lemma ex11_embedded_nonstruct :
      = Some [("ID", "ID", SAssign, [])]
   /\ pair_guard (ps_env ex11) (ps_fuel ex11) (ps_jobs ex11) = false.
 Proof. vm_compute. repeat split; reflexivity. Qed.
+
+(* ex12: the NAME-level statements hold (SetA is written once, SetB is covered by the
+   constructor) although the field x is written twice; tables_wf rejects the tables *)
+Lemma ex12_names_are_not_storage :
+  option_map (fun a => (option_map (map fst) (pl_ctor (a_to a)),
+                        map (fun st => (r_name (st_dst st), write_path (j_dst_acc ex12_job) (st_dst st))) (pl_stmts (a_to a))))
+             (analyse id_oracle ex12_job)
+  = Some (Some [["x"]], [("SetA", Some ["x"])])
+  /\ tables_wf ex12_job = false.
+Proof. vm_compute. split; reflexivity. Qed.
+
+(* ex5, FromX into a shoot-new SOURCE: both fields arrive through the constructor call
+   (note through the mapper method F, count by assignment), the setter SetCount is not
+   called (count is covered), ToX reads count through its getter; the tables are well formed *)
+Lemma ex5_from_plan :
+  option_map (fun a => (pl_ctor (a_from a), summary (a_from a),
+                        map (fun st => (r_name (st_src st), r_acc (st_src st), r_name (st_dst st))) (pl_stmts (a_to a))))
+             (analyse id_oracle (job_of ex5 "T"))
+  = Some (Some [(["note"], CVal {| r_name := "Note"; r_path := ["Note"]; r_acc := false |} (SFunc "F"));
+                (["count"], CVal {| r_name := "Count"; r_path := ["Count"]; r_acc := false |} SAssign)],
+          [], [("Count", true, "Count")])
+  /\ run_from ex5 (VPtr ex5_dirty) (VPtr ex5_d)
+     = Ok (VPtr (VStruct [("Mapper", VStruct []); ("note", VStr "o#v"); ("count", VInt 9)]))
+  /\ tables_wf (job_of ex5 "T") = true /\ tables_wf (job_of ex6 "T") = true.
+Proof. vm_compute. repeat split; reflexivity. Qed.
